@@ -1,10 +1,17 @@
 import Req.Driver.Proto
 import Req.H1.Response
+import Req.H1.Conn
 /-! Driver lanes of C04 (also used by C03).
 
 `c04parse <H|G> <B> <hex stream>` → canonical rendering of `parseResponse`.
 `c04chunk <B> <hex stream>` → the chunked reader alone.
 `c04mime <hex stream>` → the header block reader alone.
+`c04conn <B> <reqs> <scripts>` → `transportRun`: a sequence of requests through the Transport over
+scripted connections.  `reqs`: comma-joined tokens `<G|H><c|k><e|n><F|P<k>>` (method HEAD or not,
+Request.Close or keep, Expect: 100-continue or not, body read fully / `k` bytes then Close).
+`scripts`: connections joined by `|`, each `<E|O>:<segments>` (peer closes after the last segment /
+keeps the connection open; segments comma-joined hex, segment j sent once request j was written).
+Answer: the per-request views joined by ` | `, then ` dials=<n>`.
 -/
 namespace Req.Driver.L.C04
 open Req.Proto Req.H1
@@ -69,10 +76,62 @@ def laneMime : List String → String
     | none => "bad-op"
   | _ => "bad-op"
 
+
+def parseReq (t : String) : Option ConnReq :=
+  match t.toList with
+  | m :: c :: e :: rest =>
+    let isHead? := if m == 'H' then some true else if m == 'G' then some false else none
+    let close? := if c == 'c' then some true else if c == 'k' then some false else none
+    let exp? := if e == 'e' then some true else if e == 'n' then some false else none
+    let cons? : Option Consume :=
+      match rest with
+      | ['F'] => some .full
+      | 'P' :: ds => (String.ofList ds).toNat?.map .part
+      | _ => none
+    match isHead?, close?, exp?, cons? with
+    | some h, some c, some e, some k => some ⟨h, c, e, k⟩
+    | _, _, _, _ => none
+  | _ => none
+
+def parseScript (t : String) : Option ConnScript :=
+  match t.splitOn ":" with
+  | [f, segs] =>
+    let eof? := if f == "E" then some true else if f == "O" then some false else none
+    match eof?, decodeList segs with
+    | some e, some l => some ⟨l, e⟩
+    | _, _ => none
+  | _ => none
+
+def renderEnd : BodyEnd → String
+  | .eof => "eof"
+  | .err => "err"
+  | .closed => "closed"
+  | .raw => "raw"
+
+def renderDelivery : Delivery → String
+  | .fail => "fail"
+  | .resp m seen e tr =>
+    "ok proto=" ++ encodeHex m.sl.proto ++ " status=" ++ encodeHex m.sl.status ++
+    " code=" ++ toString m.sl.code ++
+    " hdr=" ++ renderMap m.header ++ " cl=" ++ toString m.contentLength ++
+    " te=" ++ renderBool m.teChunked ++ " close=" ++ renderBool m.close ++
+    " body=" ++ encodeHex seen ++ " end=" ++ renderEnd e ++
+    " trailer=" ++ renderMap tr
+
+def laneConn : List String → String
+  | [b, reqs, scripts] =>
+    match b.toNat?, (reqs.splitOn ",").mapM parseReq, (scripts.splitOn "|").mapM parseScript with
+    | some B, some qs, some scs =>
+      let (ds, n) := transportRun B qs ⟨none, scs, 0⟩
+      " | ".intercalate (ds.map renderDelivery) ++ " dials=" ++ toString n
+    | _, _, _ => "bad-op"
+  | _ => "bad-op"
+
 def lanes : List (String × (List String → String)) := [
   ("c04parse", laneParse),
   ("c04chunk", laneChunk),
-  ("c04mime", laneMime)
+  ("c04mime", laneMime),
+  ("c04conn", laneConn)
 ]
 
 end Req.Driver.L.C04
